@@ -260,7 +260,7 @@ impl Prop for SetClear {
                 Ok((rd_date(&r) as i128 * tl::DAY_NS, None, (r.year(), r.month(), r.day(), r.day_of_year(), r.weekday()), None))
             })
         } else {
-            let d0: DateTime = match catch(|| mk_dt_off(utc, c.off)) {
+            let d0: DateTime = match catch(|| mk_dt_off_any(utc, c.off)) {
                 Ok(d) => d,
                 Err(p) => return fail("c09.harness_build", "receiver builds", p.short()),
             };
@@ -459,7 +459,7 @@ impl Prop for Chain {
         if !c.i.valid() || c.off.abs() > 86_399 || c.ops.len() > 8 || c.i.day < cal::MIN_DAY + 3 || c.i.day > cal::MAX_DAY - 3 {
             return Verdict::Skip("malformed case");
         }
-        let mut d = match catch(|| mk_dt_off(c.i.i(), c.off)) {
+        let mut d = match catch(|| mk_dt_off_any(c.i.i(), c.off)) {
             Ok(d) => d,
             Err(p) => return fail("c09.harness_build", "receiver builds", p.short()),
         };
